@@ -50,6 +50,32 @@ type Step struct {
 	Fault *Fault     `json:"fault,omitempty"`
 	To    int        `json:"to,omitempty"`
 	Batch *BatchDesc `json:"batch,omitempty"`
+	// op fetch: calls made with a context that is already done.  Done "cancel" (cancelled before the call) or "deadline"
+	// (deadline = now); every Every-th call of the burst is such a call (0/1: all of them), after a pause of Pause ms
+	// (the background reader refills the queue meanwhile).  A call that returns the context's error delivered nothing
+	// and does not count towards N; at most Max such calls are made (default 4*N+12), the others are ordinary calls.
+	Done  string `json:"done,omitempty"`
+	Every int    `json:"every,omitempty"`
+	Pause int    `json:"pause,omitempty"`
+	Max   int    `json:"max,omitempty"`
+	Api   string `json:"api,omitempty"` // "read": ReadMessage instead of FetchMessage
+}
+
+// Trigger is a broker-side action tied to the arrival of a request: the K-th Fetch request since the Gen-th "setoffset"
+// step of the script (Gen 0: since the beginning), the K-th ListOffsets request of a connection made since then (the
+// Reader's lag probe asks twice on a connection of its own, reader.initialize four times: K = 3, 4 are the requests of
+// its Seek, after the position was resolved), or the first Fetch request that asks for offset Off.
+// Before that request is answered the batch is appended to the log, the leader is moved, and the fault (Fetch only) is
+// applied to this very request.
+type Trigger struct {
+	Req    string     `json:"req"` // fetch | list
+	K      int        `json:"k,omitempty"`
+	Gen    int        `json:"gen,omitempty"`
+	Off    *int64     `json:"off,omitempty"`
+	Batch  *BatchDesc `json:"batch,omitempty"`
+	Fault  *Fault     `json:"fault,omitempty"`
+	Leader int        `json:"leader,omitempty"`
+	fired  bool
 }
 
 type Script struct {
@@ -62,6 +88,7 @@ type Script struct {
 	MaxBytes int         `json:"maxBytes"`
 	Steps    []Step      `json:"steps"`
 	Chunk    int         `json:"chunk,omitempty"` // > 0: every fetch response arrives in pieces of this many bytes
+	On       []Trigger   `json:"on,omitempty"`
 }
 
 const topic = "t"
@@ -155,32 +182,53 @@ func build(d BatchDesc) pbatch {
 }
 
 type run struct {
-	noTs         map[int64]bool // offsets stored in message format 0 (no timestamp on the wire)
-	sc           *Script
-	rec          *trace.Recorder
-	net          *fakenet.Net
-	cl           *fakekafka.Cluster
-	mu           sync.Mutex
-	batches      []pbatch
-	faults       []Fault
-	nfetch       int
-	quiet        bool // consecutive identical empty polls at the end of the log are recorded once
-	quietAt      int64
-	lastListConn int
-	quietConn    int
-	lastKey      string
-	lastClose    int64
+	noTs      map[int64]bool // offsets stored in message format 0 (no timestamp on the wire)
+	sc        *Script
+	rec       *trace.Recorder
+	net       *fakenet.Net
+	cl        *fakekafka.Cluster
+	mu        sync.Mutex
+	batches   []pbatch
+	faults    []Fault
+	nfetch    int
+	quiet     bool // consecutive identical empty polls at the end of the log are recorded once
+	quietAt   int64
+	quietConn int
+	lastKey   string
+	lastClose int64
+	trig      []Trigger
+	gen       int // number of "setoffset" steps begun
+	nfetchG   int // Fetch requests received since then
+	lconn     map[int]*listState
+}
+
+// listState: what one connection was told by ListOffsets so far
+type listState struct {
+	first int64
+	nlast int
+	nreq  int
 }
 
 var (
-	runsMu  sync.RWMutex
-	runs    = map[string]*run{}
-	counter int64
+	runsMu   sync.RWMutex
+	runs     = map[string]*run{}
+	counter  int64
+	byReader sync.Map // *kafka.Reader -> *run
 )
 
 // InstallHook routes Batch.close events of readers to their run (by the fakenet name in the client address).
 func InstallHook(prev func(string, ...interface{})) func(string, ...interface{}) {
 	return func(ev string, args ...interface{}) {
+		if ev == "reader.start" && len(args) > 1 {
+			// a new background reader (generation) replaces the previous one: first call, or SetOffset to another position
+			if rd, ok := args[0].(*kafka.Reader); ok {
+				if v, ok := byReader.Load(rd); ok {
+					ver, _ := args[1].(int64)
+					v.(*run).rec.Emit(trace.Event{"ev": "start", "version": ver})
+					return
+				}
+			}
+		}
 		if ev == "batch.close" && len(args) > 0 {
 			if c, ok := args[0].(*kafka.Conn); ok && c != nil {
 				parts := strings.Split(c.LocalAddr().String(), ":")
@@ -197,7 +245,8 @@ func InstallHook(prev func(string, ...interface{})) func(string, ...interface{})
 						r.mu.Unlock()
 						if !skip {
 							cid, _ := strconv.Atoi(parts[2])
-							r.rec.Emit(trace.Event{"ev": "close", "offset": off, "err": errString(err), "conn": cid})
+							// timeout: the read deadline passed (or the broker said RequestTimedOut) before the end of the answer
+							r.rec.Emit(trace.Event{"ev": "close", "offset": off, "err": errString(err), "conn": cid, "timeout": err != nil && errors.Is(err, kafka.RequestTimedOut)})
 						}
 						return
 					}
@@ -231,26 +280,44 @@ func (r *run) served(off int64) []int {
 func (r *run) intercept(req *fakekafka.Request) *fakekafka.Reply {
 	switch req.ApiKey {
 	case fakekafka.ListOffsets:
-		r.mu.Lock()
-		first := r.lastListConn != req.Conn.ID
-		r.lastListConn = req.Conn.ID
-		r.mu.Unlock()
-		if first {
-			r.rec.Emit(trace.Event{"ev": "listoffsets", "conn": req.Conn.ID})
-		}
-		return nil
+		// the answer to the first "latest" lookup on a connection is what a Reader positioned at LastOffset resolves to:
+		// it is recorded (with the connection's "earliest" answer) in the same atomic step in which it is computed
+		ts := listArgs(req)
+		r.fire("list", 0, req.Conn.ID)
+		var rep fakekafka.Reply
+		r.rec.EmitWith(func() trace.Event {
+			rep = req.Broker.Handle(req)
+			code, ans := listAnswer(req.Version, rep.Body)
+			r.mu.Lock()
+			defer r.mu.Unlock()
+			st := r.lconn[req.Conn.ID]
+			if st == nil {
+				st = &listState{first: -1}
+				r.lconn[req.Conn.ID] = st
+			}
+			switch {
+			case ts == -2 && code == 0:
+				st.first = ans
+				return nil
+			case ts == -1:
+				st.nlast++
+				return trace.Event{"ev": "listoffsets", "conn": req.Conn.ID, "at": ts, "off": ans, "code": code, "k": st.nlast, "first": st.first}
+			}
+			return nil
+		})
+		return &rep
 	case fakekafka.Fetch:
 	default:
 		return nil
 	}
 	off, maxBytes := fetchArgs(req)
+	forced := r.fire("fetch", off, req.Conn.ID)
 	r.cl.Lock()
 	p := r.cl.Part(topic, 0)
 	leader, hw, start := p.Leader, p.HW, p.LogStart
 	r.cl.Unlock()
 	r.mu.Lock()
 	defer r.mu.Unlock()
-	r.nfetch++
 	ev := trace.Event{"ev": "fetch", "off": off, "conn": req.Conn.ID, "kind": "data", "nb": 0, "truncated": false, "hdr": false, "j": 0, "code": 0, "v": int(req.Version)}
 	emit := func() { r.rec.Emit(ev) }
 	if leader != req.Broker.ID {
@@ -267,7 +334,9 @@ func (r *run) intercept(req *fakekafka.Request) *fakekafka.Reply {
 	}
 	idx := r.served(off)
 	var f *Fault
-	if len(r.faults) > 0 && (r.faults[0].Kind == "err" || r.faults[0].Kind == "empty" || len(idx) > 0) {
+	if forced != nil {
+		f = forced
+	} else if len(r.faults) > 0 && (r.faults[0].Kind == "err" || r.faults[0].Kind == "empty" || len(idx) > 0) {
 		f = &r.faults[0]
 		r.faults = r.faults[1:]
 	}
@@ -449,6 +518,102 @@ func fetchArgs(req *fakekafka.Request) (off int64, max int) {
 	return
 }
 
+// listArgs: the timestamp asked for by a ListOffsets request (first topic, first partition)
+func listArgs(req *fakekafka.Request) int64 {
+	r := kwire.R{B: req.Body}
+	r.I32()
+	r.ArrayLen()
+	r.Str()
+	r.ArrayLen()
+	r.I32()
+	return r.I64()
+}
+
+// listAnswer: error code and offset of a ListOffsets answer (first topic, first partition)
+func listAnswer(version int16, body []byte) (code int, off int64) {
+	r := kwire.R{B: body}
+	if version >= 2 {
+		r.I32()
+	}
+	r.ArrayLen()
+	r.Str()
+	r.ArrayLen()
+	r.I32()
+	code, off = int(r.I16()), -1
+	if version == 0 {
+		if r.ArrayLen() > 0 {
+			off = r.I64()
+		}
+	} else {
+		r.I64()
+		off = r.I64()
+	}
+	if r.Err != nil {
+		return -1, -1
+	}
+	return
+}
+
+// fire counts an arriving request and performs the triggers tied to it; the fault of a trigger is returned.
+func (r *run) fire(kind string, off int64, conn int) *Fault {
+	r.mu.Lock()
+	n := 0
+	if kind == "fetch" {
+		r.nfetch++
+		r.nfetchG++
+		n = r.nfetchG
+	} else {
+		st := r.lconn[conn]
+		if st == nil {
+			st = &listState{first: -1}
+			r.lconn[conn] = st
+		}
+		st.nreq++
+		n = st.nreq
+	}
+	var hit []*Trigger
+	for i := range r.trig {
+		t := &r.trig[i]
+		if t.fired || t.Req != kind {
+			continue
+		}
+		if t.Off != nil {
+			if kind != "fetch" || off != *t.Off {
+				continue
+			}
+		} else if t.Gen != r.gen || t.K != n {
+			continue
+		}
+		t.fired = true
+		hit = append(hit, t)
+	}
+	r.mu.Unlock()
+	var f *Fault
+	for _, t := range hit {
+		if t.Batch != nil {
+			r.appendBatch(*t.Batch)
+		}
+		if t.Leader != 0 {
+			r.cl.Lock()
+			r.cl.Part(topic, 0).Leader = t.Leader
+			r.cl.Unlock()
+			r.rec.Emit(trace.Event{"ev": "moveleader", "to": t.Leader})
+		}
+		if t.Fault != nil {
+			f = t.Fault
+		}
+	}
+	return f
+}
+
+// appendBatch stores a batch and records the event in one atomic step (no answer of the broker falls in between).
+func (r *run) appendBatch(d BatchDesc) {
+	r.rec.EmitWith(func() trace.Event {
+		r.install(d)
+		return trace.Event{"ev": "append", "batch": descEvent(d)}
+	})
+}
+
 func (r *run) reply(req *fakekafka.Request, code int16, hw, start int64, set []byte) fakekafka.Reply {
 	var w kwire.W
 	if req.Version >= 1 {
@@ -505,7 +670,8 @@ func descEvent(d BatchDesc) map[string]interface{} {
 // Run executes one script and returns its trace.
 func Run(sc *Script) []trace.Event {
 	name := fmt.Sprintf("r%d", atomic.AddInt64(&counter, 1))
-	r := &run{sc: sc, rec: trace.New(), net: fakenet.NewNet(), noTs: map[int64]bool{}}
+	r := &run{sc: sc, rec: trace.New(), net: fakenet.NewNet(), noTs: map[int64]bool{}, lconn: map[int]*listState{}}
+	r.trig = append([]Trigger{}, sc.On...)
 	r.rec.Cap, r.rec.Always = 20000, map[string]bool{"end": true, "hang": true, "close.call": true, "close.return": true, "panic": true}
 	r.net.Name = name
 	r.cl = fakekafka.NewCluster(r.net, 2)
@@ -553,6 +719,8 @@ func Run(sc *Script) []trace.Event {
 		ReadBackoffMin: time.Millisecond, ReadBackoffMax: 5 * time.Millisecond, ReadBatchTimeout: 500 * time.Millisecond,
 		MaxAttempts: 3,
 	})
+	byReader.Store(rd, r)
+	defer byReader.Delete(rd)
 	if sc.Start != -2 {
 		// FirstOffset is the default; anything else is set explicitly before the first fetch
 		r.rec.Emit(trace.Event{"ev": "setoffset.begin", "o": sc.Start, "initial": true})
@@ -563,10 +731,39 @@ func Run(sc *Script) []trace.Event {
 	for _, st := range sc.Steps {
 		switch st.Op {
 		case "fetch":
+			maxDone := st.Max
+			if maxDone <= 0 {
+				maxDone = 4*st.N + 12
+			}
+			calls, doneCalls := 0, 0
 			for i := 0; i < st.N; i++ {
-				ctx, cancel := context.WithTimeout(context.Background(), callTimeout)
-				r.rec.Emit(trace.Event{"ev": "call"})
-				m, err := rd.FetchMessage(ctx)
+				calls++
+				done := st.Done != "" && (st.Every <= 1 || calls%st.Every == 0) && doneCalls < maxDone
+				var ctx context.Context
+				var cancel context.CancelFunc
+				if done {
+					doneCalls++
+					if st.Pause > 0 {
+						time.Sleep(time.Duration(st.Pause) * time.Millisecond)
+					}
+					if st.Done == "deadline" {
+						ctx, cancel = context.WithDeadline(context.Background(), time.Now())
+					} else {
+						ctx, cancel = context.WithCancel(context.Background())
+						cancel()
+					}
+					r.rec.Emit(trace.Event{"ev": "call", "done": st.Done})
+				} else {
+					ctx, cancel = context.WithTimeout(context.Background(), callTimeout)
+					r.rec.Emit(trace.Event{"ev": "call"})
+				}
+				var m kafka.Message
+				var err error
+				if st.Api == "read" {
+					m, err = rd.ReadMessage(ctx)
+				} else {
+					m, err = rd.FetchMessage(ctx)
+				}
 				cancel()
 				switch {
 				case err == nil:
@@ -579,6 +776,10 @@ func Run(sc *Script) []trace.Event {
 						ok = false
 					}
 					r.rec.Emit(trace.Event{"ev": "msg", "off": m.Offset, "ok": ok, "nheaders": len(m.Headers)})
+				case done && (errors.Is(err, context.Canceled) || errors.Is(err, context.DeadlineExceeded)):
+					// the call was refused because of its context: nothing was delivered, the call does not count
+					r.rec.Emit(trace.Event{"ev": "ctxerr", "err": err.Error()})
+					i--
 				case errors.Is(err, context.DeadlineExceeded):
 					r.rec.Emit(trace.Event{"ev": "nomsg"})
 					i = st.N // stop this burst: nothing more is coming
@@ -590,6 +791,10 @@ func Run(sc *Script) []trace.Event {
 				}
 			}
 		case "setoffset":
+			r.mu.Lock()
+			r.gen++
+			r.nfetchG = 0
+			r.mu.Unlock()
 			r.rec.Emit(trace.Event{"ev": "setoffset.begin", "o": st.O})
 			err := rd.SetOffset(st.O)
 			r.rec.Emit(trace.Event{"ev": "setoffset.end", "o": st.O, "err": errString(err)})
@@ -613,10 +818,7 @@ func Run(sc *Script) []trace.Event {
 			r.rec.Emit(trace.Event{"ev": "logstart", "o": st.O})
 		case "append":
 			if st.Batch != nil {
-				r.rec.EmitWith(func() trace.Event {
-					return trace.Event{"ev": "append", "batch": descEvent(*st.Batch)}
-				})
-				r.install(*st.Batch)
+				r.appendBatch(*st.Batch)
 			}
 		case "close":
 			done := make(chan struct{})
